@@ -11,7 +11,7 @@ import qgen  # noqa: E402
 
 CLASSES = {
     'C03': {'op_dims', 'mono_dims', 'linear_dims', 'components_dims', 'not_equivariant'},
-    'C04': {'op_semantics', 'twin_mismatch', 'twin_value_differs'},
+    'C04': {'op_semantics', 'twin_mismatch', 'twin_value_differs', 'op_not_native'},
     'C05': {'not_inverse', 'round_trip'},
     'C18': {'definition_missing', 'definition_formula', 'tensor_definition', 'formula_value', 'tensor_definition_value'},
 }
@@ -241,12 +241,16 @@ def numeric_layer(exe, rels, fps, qs, stddim, twins, pairs, wd, n):
         for nm, kind in TENSOR_DEFS.items():
             if nm in byname:
                 f.write(f"{byname[nm]['id']} {kind[0]}\n")
-    jobs = [('equiv', 'equiv.txt', n), ('twin', 'twin.txt', n * 5), ('inverse', 'inverse.txt', n * 5), ('mono', 'mono.txt', n * 5), ('tdef', 'tdef.txt', n * 10)]
+    with open(os.path.join(wd, 'opnative.txt'), 'w') as f:
+        for r in rels:
+            if r['kind'] == 'op' and not any(a in qgen.NORMALISED for a in r['args']) and r['rsz'] == max(r['asz']):
+                f.write(f"{r['id']} {'+-*/'.index(r['op'])}\n")
+    jobs = [('opnative', 'opnative.txt', n * 5), ('equiv', 'equiv.txt', n), ('twin', 'twin.txt', n * 5), ('inverse', 'inverse.txt', n * 5), ('mono', 'mono.txt', n * 5), ('tdef', 'tdef.txt', n * 10)]
 
     def one(j):
         mode, fn, k = j
         return C.run([exe, mode, os.path.join(wd, fn), str(C.SEED), str(k)], timeout=1500).stdout.decode()
-    with cf.ThreadPoolExecutor(5) as ex:
+    with cf.ThreadPoolExecutor(6) as ex:
         outs = list(ex.map(one, jobs))
     evs = []
     for o in outs:
